@@ -169,7 +169,8 @@ Section Scan.
   Variable m1 : mem.                                     (* the memory after rstr_make *)
   Variables (lb bln : nat) (lbs : list nat) (lines : list bytes).
   Variables (boffs br bo bl : nat).
-  Variables (kwv : val) (rb : nat) (ro : Z).
+  Variables (kb : nat) (ko : Z) (rb : nat) (ro : Z).
+  Notation kwv := (VPtr kb ko).
   Notation rep := (VPtr rb ro).
   Variable find : bytes -> bool -> option (nat * nat).
   Variables (dir : Z) (r0 o0 : nat).
@@ -565,6 +566,9 @@ Section Scan.
     intros S Hi. rewrite for_eq, exec_for. cbn [eval_opt]. rewrite (for_cond_0 m c r o vl _ _ _ _ S), truth_b2z.
     destruct (Z.leb_spec 0 i); destruct (Z.ltb_spec i (Z.of_nat (length lines))); try lia; reflexivity.
   Qed.
+  Lemma for_exit_range_pos m c r o vl i sv voff vbeg fuel : (0 < fuel)%nat -> smem m c r o vl -> (i < 0 \/ Z.of_nat (length lines) <= i) ->
+    exec cx fuel srch_for (mkst (lst i 0 sv voff vbeg) m) = ONormal (mkst (lst i 0 sv voff vbeg) m).
+  Proof. intro H. destruct fuel; [lia|]. apply for_exit_range. Qed.
   (* s = lbuf_get(lb, i) *)
   Lemma get_ok m c r o vl i found sv voff vbeg fuel : smem m c r o vl -> (i < length lines)%nat ->
     exec cx fuel sb_get (mkst (lst (Z.of_nat i) found sv voff vbeg) m)
@@ -695,4 +699,173 @@ Section Scan.
         rewrite <- for_eq, E2. destruct (Nat.eqb_spec i r0) as [E|_]; [lia|].
         do 7 eexists. split; [reflexivity|]. split; [exact Hc2|exact R2].
   Qed.
+
+  (* ------------------------------------------------------------------ piece (4): the function, from the call of rstr_make on *)
+  Definition sres_ret (x : sres) : Z := match x with SFound _ _ _ => 0 | _ => 1 end.
+  Definition sres_r (x : sres) (r : Z) : Z := match x with SFound rr _ _ => Z.of_nat rr | _ => r end.
+  Definition sres_o (x : sres) (o : Z) : Z := match x with SFound _ oo _ => Z.of_nat oo | _ => o end.
+  Definition sres_l (x : sres) (vl : val) : val := match x with SFound _ _ ll => VInt (Z.of_nat ll) | _ => vl end.
+
+  Lemma x_rstr_make_none : nth_error cprog X_rstr_make = None.
+  Proof. vm_compute. reflexivity. Qed.
+  Lemma x_rstr_free_none : nth_error cprog X_rstr_free = None.
+  Proof. vm_compute. reflexivity. Qed.
+
+  (* the loop as a whole: the model's scan, for both directions *)
+  Lemma for_ok m c vl sv voff vbeg : length c = 2%nat -> smem m c (Z.of_nat r0) (Z.of_nat o0) vl ->
+    let res := lbuf_search_g (fm_of find) lines fwd r0 o0 in
+    res <> SOOB ->
+    exists m' c' i' found' sv' voff' vbeg',
+      exec cx F srch_for (mkst (lst (Z.of_nat r0) 0 sv voff vbeg) m) = ONormal (mkst (lst i' found' sv' voff' vbeg') m') /\
+      length c' = 2%nat /\ found' = 1 - sres_ret res /\
+      smem m' c' (sres_r res (Z.of_nat r0)) (sres_o res (Z.of_nat o0)) (sres_l res vl).
+  Proof.
+    intros Hc SM res Hres. unfold res, lbuf_search_g in Hres |- *. unfold fwd in Hres |- *.
+    destruct (Nat.lt_ge_cases r0 (length lines)) as [Hi|Hi].
+    - rewrite (nth_error_nth' lines [] Hi) in Hres |- *. fold (nthl lines r0) in Hres |- *.
+      pose proof Hdir as Hd'. destruct Hd' as [Hd|Hd]; rewrite Hd in Hres |- *.
+      + change (0 <? 1) with true in Hres |- *. cbv iota in Hres |- *.
+        destruct (uc_chr (nthl lines r0) (Z.of_nat o0 + 1)) as [off0|] eqn:Eo; [|congruence].
+        destruct (fwd_for_ok off0 Hd (fun _ => Eo) (length lines - r0) r0 m c _ _ vl F sv voff vbeg ltac:(lia) ltac:(lia) ltac:(lia) Hc SM)
+          as (m' & c' & i' & f' & sv' & vo' & vb' & E & Hc' & R).
+        rewrite Nat.eqb_refl in R. rewrite E.
+        destruct (fwd_rows (fm_of find) (skipn r0 lines) r0 off0) as [rr oo ll| | |]; try contradiction; destruct R as [-> R];
+          do 7 eexists; (split; [reflexivity|]); (split; [exact Hc'|]); (split; [reflexivity|exact R]).
+      + change (0 <? -1) with false in Hres |- *. cbv iota in Hres |- *.
+        destruct (bwd_for_ok Hd r0 m c _ _ vl F sv voff vbeg ltac:(lia) Hi ltac:(lia) Hc SM)
+          as (m' & c' & i' & f' & sv' & vo' & vb' & E & Hc' & R).
+        rewrite Nat.eqb_refl in R. rewrite E.
+        destruct (bwd_rows (fm_of find) (rev (firstn (Datatypes.S r0) lines)) r0 (Some o0)) as [rr oo ll| | |]; try contradiction; destruct R as [-> R];
+          do 7 eexists; (split; [reflexivity|]); (split; [exact Hc'|]); (split; [reflexivity|exact R]).
+    - replace (nth_error lines r0) with (@None bytes) in Hres |- * by (symmetry; apply nth_error_None; lia).
+      rewrite (for_exit_range_pos m c _ _ vl _ _ _ _ F ltac:(lia) SM) by lia.
+      do 7 eexists. split; [reflexivity|]. split; [exact Hc|]. split; [reflexivity|exact SM].
+  Qed.
+
+  Variables (m : mem) (xic : Z) (vl : val).
+  Hypothesis Hb : boffs = length m.
+  Hypothesis Hxic : cell_at m G_xic xic.
+  Hypothesis Ixic : i32 xic.
+  Hypothesis Hmr : nth_error m br = Some [VInt (Z.of_nat r0)].
+  Hypothesis Hmo : nth_error m bo = Some [VInt (Z.of_nat o0)].
+  Hypothesis S1 : smem m1 [VUndef; VUndef] (Z.of_nat r0) (Z.of_nat o0) vl.
+  Hypothesis Hmake : ext X_rstr_make [kwv; VInt (if xic =? 0 then 0 else 1)] (m ++ [[VUndef; VUndef]]) = Ok (rep, m1).
+
+  (* lbuf_search when rstr_make returned a compiled pattern: the value and the memory handed to rstr_free are the model's;
+     what rstr_free does with that memory is the oracle's answer *)
+  Lemma search_run :
+    let res := lbuf_search_g (fm_of find) lines fwd r0 o0 in
+    res <> SOOB ->
+    exists mf c, length c = 2%nat /\
+      smem mf c (sres_r res (Z.of_nat r0)) (sres_o res (Z.of_nat o0)) (sres_l res vl) /\
+      callx ext cprog F (S (S (S (S D)))) F_lbuf_search [VPtr lb 0; kwv; VInt dir; VPtr br 0; VPtr bo 0; VPtr bl 0] m
+      = (do (_, m') <- ext X_rstr_free [rep] mf; Ok (VInt (sres_ret res), m')).
+  Proof.
+    intros res Hres.
+    destruct (for_ok m1 [VUndef; VUndef] vl VUndef VUndef VUndef eq_refl S1 Hres) as (mf & c & i' & f' & sv' & vo' & vb' & E & Hc & Hf' & SF).
+    fold res in Hf', SF. exists mf, c. split; [exact Hc|]. split; [exact SF|].
+    assert (Lr : (br < length m)%nat) by (apply nth_error_Some; congruence).
+    assert (Lo : (bo < length m)%nat) by (apply nth_error_Some; congruence).
+    assert (Lx : (G_xic < length m)%nat) by (apply nth_error_Some; unfold cell_at in Hxic; congruence).
+    rewrite callx_S. cbn [nth_error cprog F_lbuf_search cf_lbuf_search fn_nparams fn_nlocals fn_body length Nat.eqb Nat.sub repeat app].
+    xstep. rewrite malloc_ok by lia. xstep. change (repeat VUndef (Z.to_nat 2)) with [VUndef; VUndef]. rewrite <- Hb.
+    set (m0 := m ++ [[VUndef; VUndef]]) in *.
+    rewrite (fld_load m0 br [VInt (Z.of_nat r0)] 0 _ 0) by (try reflexivity; unfold m0; rewrite nth_error_app_old by exact Lr; exact Hmr). xstep.
+    rewrite (fld_load m0 bo [VInt (Z.of_nat o0)] 0 _ 0) by (try reflexivity; unfold m0; rewrite nth_error_app_old by exact Lo; exact Hmo). xstep.
+    rewrite !wrap_I32_id by lia.
+    rewrite (fld_load m0 G_xic [VInt xic] 0 _ 0) by (try reflexivity; unfold m0; rewrite nth_error_app_old by exact Lx; exact Hxic). xstep.
+    rewrite wrap_I32_id by exact Ixic.
+    assert (Emk : callx ext cprog F (S (S (S D))) X_rstr_make [kwv; VInt (if xic =? 0 then 0 else 1)] m0 = Ok (rep, m1))
+      by (rewrite callx_S, x_rstr_make_none; exact Hmake).
+    destruct (xic =? 0); xstep; rewrite Emk; xstep;
+      (let t := eval cbv [srch_for fn_body cf_lbuf_search] in srch_for in change t with srch_for);
+      fold (lst (Z.of_nat r0) 0 VUndef VUndef VUndef); rewrite E; unfold lst; xstep;
+      rewrite callx_S, x_rstr_free_none; destruct (ext X_rstr_free [rep] mf) as [[u m']|e]; xstep; try reflexivity;
+      rewrite Hf'; destruct res; reflexivity.
+  Qed.
 End Scan.
+
+(* ------------------------------------------------------------------ the theorem *)
+Lemma lbuf_at_lt m lb bln lbs lines k : lbuf_at m lb bln lbs lines -> In k (lb :: bln :: lbs) -> (k < length m)%nat.
+Proof.
+  intros [(blk & Hb & _) (lnblk & Hl & _) Hlbs Hstr _ _] [<-|[<-|Hk]].
+  - apply nth_error_Some. congruence.
+  - apply nth_error_Some. congruence.
+  - destruct (In_nth lbs k O Hk) as (i & Hi & <-). specialize (Hstr i ltac:(lia)). unfold str_at in Hstr.
+    apply nth_error_Some. congruence.
+Qed.
+
+(* int lbuf_search(lb, kw, dir, &r, &o, &len), after rstr_make(kw, xic ? RE_ICASE : 0) returned the compiled pattern (rb, ro) and
+   left memory m1 (= the memory at the call with the offs block appended, plus whatever rstr_make allocated behind it):
+
+   for EVERY oracle whose rstr_find answers on the memories of the scan are described by `find` (find_ans) with offsets inside the
+   searched suffix (find_wf), every buffer in memory, every cursor (r0, o0) and both directions, the call
+     - hands rstr_free the memory mf in which *r, *o, *len hold the model's result when it is SFound r o len and are untouched
+       otherwise, the offs block holds two cells, and every other block is as in m1 (smem): the blocks of the buffer are never
+       written, and the offs block (index length m) is the only block the function itself allocated;
+     - returns 0 when the model says SFound and 1 otherwise -- with the memory rstr_free leaves.
+   All loads are checked by the semantics (an Ok result means none left its block), so the scan reads the lines only up to their
+   terminators.  The model's SOOB (the cursor offset lies beyond the line: uc_chr returns its static "") is excluded. *)
+Theorem tr_lbuf_search ext F D m lb bln lbs lines br bo bl kb ko rb ro find dir r0 o0 xic vl m1 :
+  lbuf_at m lb bln lbs lines -> lines_small lines -> lines_fit lines -> (length lines + maxlen lines + 4 < F)%nat ->
+  find_wf find -> dir_ok dir -> Z.of_nat r0 <= 2147483647 -> Z.of_nat o0 < 2147483647 ->
+  NoDup [br; bo; bl] -> (forall k, In k [br; bo; bl] -> ~ In k (lb :: bln :: lbs)) ->
+  nth_error m br = Some [VInt (Z.of_nat r0)] -> nth_error m bo = Some [VInt (Z.of_nat o0)] -> nth_error m bl = Some [vl] ->
+  cell_at m G_xic xic -> i32 xic ->
+  ext X_rstr_make [VPtr kb ko; VInt (if xic =? 0 then 0 else 1)] (m ++ [[VUndef; VUndef]]) = Ok (VPtr rb ro, m1) ->
+  (S (length m) <= length m1)%nat -> (forall k, (k <= length m)%nat -> nth_error m1 k = nth_error (m ++ [[VUndef; VUndef]]) k) ->
+  find_ans ext F D m1 lbs lines (length m) br bo bl rb ro find ->
+  let res := lbuf_search_g (fm_of find) lines (0 <? dir) r0 o0 in
+  res <> SOOB ->
+  exists mf c, length c = 2%nat /\
+    smem m1 (length m) br bo bl mf c (sres_r res (Z.of_nat r0)) (sres_o res (Z.of_nat o0)) (sres_l res vl) /\
+    callx ext cprog F (S (S (S (S D)))) F_lbuf_search [VPtr lb 0; VPtr kb ko; VInt dir; VPtr br 0; VPtr bo 0; VPtr bl 0] m
+    = (do (_, m') <- ext X_rstr_free [VPtr rb ro] mf; Ok (VInt (sres_ret res), m')).
+Proof.
+  intros R Hsm Hfit HF Hwf Hdir Hr0 Ho0 Hnd Hout Hmr Hmo Hml Hxic Ixic Hmake Hlen Hsame Hfind res Hres.
+  assert (Lr : (br < length m)%nat) by (apply nth_error_Some; congruence).
+  assert (Lo : (bo < length m)%nat) by (apply nth_error_Some; congruence).
+  assert (Ll : (bl < length m)%nat) by (apply nth_error_Some; congruence).
+  assert (Hold : forall k, (k < length m)%nat -> nth_error m1 k = nth_error m k).
+  { intros k Hk. rewrite Hsame by lia. apply nth_error_app_old. exact Hk. }
+  assert (R1 : lbuf_at m1 lb bln lbs lines).
+  { apply (lbuf_at_other m); [exact R|]. intros k Hk. apply Hold. apply (lbuf_at_lt _ _ _ _ _ _ R Hk). }
+  inversion Hnd as [|? ? N1 Hnd2]; subst. inversion Hnd2 as [|? ? N2 Hnd3]; subst.
+  assert (Hnd' : NoDup [length m; br; bo; bl]).
+  { constructor; [|exact Hnd]. cbn. intros [E|[E|[E|[]]]]; lia. }
+  assert (Hout' : forall k, In k [length m; br; bo; bl] -> ~ In k (lb :: bln :: lbs)).
+  { intros k [<-|Hk]; [|apply Hout; exact Hk]. intro Hin. pose proof (lbuf_at_lt _ _ _ _ _ _ R Hin). lia. }
+  assert (Hlt' : forall k, In k [length m; br; bo; bl] -> (k < length m1)%nat).
+  { intros k [<-|[<-|[<-|[<-|[]]]]]; lia. }
+  assert (S1 : smem m1 (length m) br bo bl m1 [VUndef; VUndef] (Z.of_nat r0) (Z.of_nat o0) vl).
+  { constructor; [reflexivity|reflexivity| | | |].
+    - rewrite Hsame by lia. apply nth_error_app_new.
+    - rewrite Hold by exact Lr. exact Hmr.
+    - rewrite Hold by exact Lo. exact Hmo.
+    - rewrite Hold by exact Ll. exact Hml. }
+  exact (search_run ext F D m1 lb bln lbs lines (length m) br bo bl kb ko rb ro find dir r0 o0 R1 Hsm HF Hfit Hwf Hdir
+           Hnd' Hout' Hlt' Hr0 Ho0 Hfind m xic vl eq_refl Hxic Ixic Hmr Hmo S1 Hmake Hres).
+Qed.
+
+(* rstr_make returned NULL (the pattern does not compile): the function returns 1 at once; *r, *o, *len are not written and
+   rstr_free is not called (SearchDefs.lbuf_search: rcomp kw = false -> SNotFound) *)
+Theorem tr_lbuf_search_null ext F D (m : mem) lb kb ko dir br bo bl r0 o0 xic m1 :
+  nth_error m br = Some [VInt r0] -> nth_error m bo = Some [VInt o0] -> i32 r0 -> i32 o0 -> cell_at m G_xic xic -> i32 xic ->
+  ext X_rstr_make [VPtr kb ko; VInt (if xic =? 0 then 0 else 1)] (m ++ [[VUndef; VUndef]]) = Ok (VInt 0, m1) ->
+  callx ext cprog F (S (S D)) F_lbuf_search [VPtr lb 0; VPtr kb ko; VInt dir; VPtr br 0; VPtr bo 0; VPtr bl 0] m = Ok (VInt 1, m1).
+Proof.
+  intros Hmr Hmo Ir Io Hxic Ixic Hmake.
+  assert (Lr : (br < length m)%nat) by (apply nth_error_Some; congruence).
+  assert (Lo : (bo < length m)%nat) by (apply nth_error_Some; congruence).
+  assert (Lx : (G_xic < length m)%nat) by (apply nth_error_Some; unfold cell_at in Hxic; congruence).
+  rewrite callx_S. cbn [nth_error cprog F_lbuf_search cf_lbuf_search fn_nparams fn_nlocals fn_body length Nat.eqb Nat.sub repeat app].
+  xstep. rewrite malloc_ok by lia. xstep. change (repeat VUndef (Z.to_nat 2)) with [VUndef; VUndef].
+  set (m0 := m ++ [[VUndef; VUndef]]) in *.
+  rewrite (fld_load m0 br [VInt r0] 0 _ 0) by (try reflexivity; unfold m0; rewrite nth_error_app_old by exact Lr; exact Hmr). xstep.
+  rewrite (fld_load m0 bo [VInt o0] 0 _ 0) by (try reflexivity; unfold m0; rewrite nth_error_app_old by exact Lo; exact Hmo). xstep.
+  rewrite (fld_load m0 G_xic [VInt xic] 0 _ 0) by (try reflexivity; unfold m0; rewrite nth_error_app_old by exact Lx; exact Hxic). xstep.
+  rewrite wrap_I32_id by exact Ixic.
+  assert (Emk : callx ext cprog F (S D) X_rstr_make [VPtr kb ko; VInt (if xic =? 0 then 0 else 1)] m0 = Ok (VInt 0, m1))
+    by (rewrite callx_S, x_rstr_make_none; exact Hmake).
+  destruct (xic =? 0); xstep; rewrite Emk; xstep; reflexivity.
+Qed.
